@@ -47,6 +47,9 @@
 //! `Interval::mul` of two Decimal128(10,2) intervals with an unbounded side takes `dt` = the operand type, so the
 //! unbounded (NULL) endpoint is typed Decimal128(10,2) while the computed one is Decimal128(21,4); the debug
 //! assertion in `Interval::data_type` panics (release builds return an interval with mixed endpoint types).
+//! Status after the fix series in /repo: 1, 6, 7, 8 are `fixed` (plain regressions, pass; `given FALSE` cases, overflowing
+//! multiplications, timestamp - duration and nullable IS DISTINCT FROM are back in play); 2-5 stay open. Open
+//! signatures are answered before fixed ones (`c22::pick_signature`).
 //! Not a defect (oracle corrected, see `fp_exact`): float absorption (1.7e38f + 1.0f == 1.7e38f) makes exact
 //! inversion impossible; only assignments whose float evaluation is exact are claimed to survive propagation.
 //!
@@ -1772,33 +1775,39 @@ impl Property for C23 {
 ///   FALSE branches of `>`/`>=`/`<`/`<=` return the two child intervals in swapped order
 ///   (`0 > c0` FALSE with c0 in [NULL,127] turns c0 into [0,0]).
 fn known_sig(case: &Case) -> Option<String> {
+    crate::c22::pick_signature("C23", all_sigs(case))
+}
+
+/// every signature the case matches
+fn all_sigs(case: &Case) -> Vec<String> {
+    let mut out: Vec<String> = vec![];
     match case {
         Case::Expr(c) => {
             if c.ranges.is_empty() || c.ranges.len() > 3 {
-                return None;
+                return out;
             }
             let mut rs = ExprResolver { col_ty: c.nt, ncols: c.ranges.len(), labels: vec![] };
             let re = rs.boolean(&c.tree);
             if re_any(&re, &has_lossy_cast) {
-                return Some("lossy-cast-propagation".into());
+                out.push("lossy-cast-propagation".into());
             }
             if re_any(&re, &has_int_div) {
-                return Some("int-div-expr".into());
+                out.push("int-div-expr".into());
             }
             if re_any(&re, &has_int_mul) {
-                return Some("int-mul-expr".into());
+                out.push("int-mul-expr".into());
             }
             if c.given_false {
-                return Some("given-false".into());
+                out.push("given-false".into());
             }
-            None
+            out
         }
         Case::Op(c) => {
             let (k, rhs_nt) = effective_op(c);
             if c.nullable != 0 && matches!(k, OpK::Bin(Operator::IsDistinctFrom | Operator::IsNotDistinctFrom)) {
                 let (va, vb) = ((c.nullable - 1) % 3, ((c.nullable - 1) / 3) % 3);
                 if (va, vb) == (1, 0) || (va, vb) == (0, 1) {
-                    return Some("nullable-distinct-maybenull-notnull".into());
+                    out.push("nullable-distinct-maybenull-notnull".into());
                 }
             }
             if k == OpK::Bin(Operator::Minus) && rhs_nt != c.nt {
@@ -1806,14 +1815,14 @@ fn known_sig(case: &Case) -> Option<String> {
                 let (lo, hi) = c.nt.range().unwrap_or((i128::MIN, i128::MAX));
                 let over = |x: Option<Num>, y: Option<Num>| matches!((x, y), (Some(Num::I(x)), Some(Num::I(y))) if x - y < lo || x - y > hi);
                 if over(a.1, b.0) || over(a.0, b.1) {
-                    return Some("ts-minus-duration-overflow-sign".into());
+                    out.push("ts-minus-duration-overflow-sign".into());
                 }
             }
             if k == OpK::Bin(Operator::Divide) && !c.nt.is_float() {
                 let (a, b) = (resolve_iv(c.nt, &c.a), resolve_iv(rhs_nt, &c.b));
                 let upper_zero = |iv: (Option<Num>, Option<Num>)| iv.1 == Some(Num::I(0)) && iv.0 != Some(Num::I(0)) && !c.nt.is_unsigned();
                 if upper_zero(a) || upper_zero(b) {
-                    return Some("int-div-upper-zero".into());
+                    out.push("int-div-upper-zero".into());
                 }
             }
             if k == OpK::Bin(Operator::Multiply) && !c.nt.is_float() {
@@ -1824,13 +1833,13 @@ fn known_sig(case: &Case) -> Option<String> {
                     let (lo, hi) = mul_result_range(c.nt);
                     let zero_in_both = al <= 0 && 0 <= ah && bl <= 0 && 0 <= bh && !c.nt.is_unsigned();
                     if zero_in_both && [al * bh, bl * ah, ah * bh, al * bl].iter().any(|p| *p < lo || *p > hi) {
-                        return Some("mul-both-contain-zero-overflow".into());
+                        out.push("mul-both-contain-zero-overflow".into());
                     }
                 }
             }
-            None
+            out
         }
-        _ => None,
+        _ => out,
     }
 }
 
